@@ -209,7 +209,7 @@ func pipeAnalyse(src string) (res pipeResult) {
 	return res
 }
 
-var ndHarnesses = map[string]func(){"Harness_Pipe_Smoke": Harness_Pipe_Smoke, "Harness_P08": Harness_P08, "Harness_P01": Harness_P01, "Harness_P07": Harness_P07, "Harness_P01L": Harness_P01L}
+var ndHarnesses = map[string]func(){"Harness_Pipe_Smoke": Harness_Pipe_Smoke, "Harness_P08": Harness_P08, "Harness_P01": Harness_P01, "Harness_P07": Harness_P07, "Harness_P01L": Harness_P01L, "Harness_P08_Ok": Harness_P08_Ok}
 
 // Harness_Pipe_Smoke: two fixed programs, one with an unguarded dereference of a nil local, one guarded.
 func Harness_Pipe_Smoke() {
